@@ -1533,6 +1533,12 @@ func (s *TransformExprSpec) decode(content *hcl.BodyContent, blockLabels []block
 	}
 	resultVal, resultDiags := s.Expr.Value(chiCtx)
 	diags = append(diags, resultDiags...)
+	if resultDiags.HasErrors() {
+		// As for a failing function in TransformFuncSpec, the partial result
+		// of a failed evaluation might not be of our implied type, so we
+		// return an unknown value placeholder of that type instead.
+		return cty.UnknownVal(s.impliedType().WithoutOptionalAttributesDeep()), diags
+	}
 	return resultVal, diags
 }
 
